@@ -679,6 +679,20 @@ def run(ck):
     ck.ob('PROV-map-names', mp.loc(pbl), ok and ok2, 'the shorthand "!NAME" declares residue NAME without fetching its block: the marker is stripped from the residue name the atoms get '
           '(_parse_blocks) and from the identifier (_blocks), so it names the same mapping as the longhand spelling', key='PROV-map-names|no-fetch-marker')
     prefix_order_table(ck, ff)
+    # [ dihedrals ] of a .ff file: function type 2 means "improper", and the function type is the first *parameter of the parsed line* -- where it sits among
+    # the raw tokens depends on the optional "--" delimiter and on atom attributes
+    dih = method(ffd, '_dih_interactions')
+    if dih is not None:
+        ck.analysed(ff, dih)
+        from_parsed = [c_ for c_ in walk_local(dih) if isinstance(c_, ast.Compare) and len(c_.ops) == 1 and isinstance(c_.ops[0], ast.Eq) and
+                       {type(c_.left), type(c_.comparators[0])} == {ast.Subscript, ast.Constant} and
+                       any(isinstance(x_, ast.Subscript) and u(x_).endswith('.parameters[0]') for x_ in (c_.left, c_.comparators[0])) and
+                       any(isinstance(x_, ast.Constant) and x_.value == '2' for x_ in (c_.left, c_.comparators[0]))]
+        from_tokens = [c_ for c_ in walk_local(dih) if isinstance(c_, ast.Compare) and any(isinstance(x_, ast.Subscript) and isinstance(x_.value, ast.Name) and x_.value.id == 'tokens'
+                                                                                           for x_ in [c_.left] + c_.comparators)
+                       and any(isinstance(x_, ast.Constant) and x_.value in ('2', 2) for x_ in [c_.left] + c_.comparators)]
+        ck.ob('PROV-sections', ff.loc(dih), len(from_parsed) == 1 and not from_tokens, 'a dihedral line is an improper exactly when the first parameter of the parsed interaction is "2" '
+              '({} test(s) on the parsed parameters, {} on raw token positions)'.format(len(from_parsed), len(from_tokens)), key='PROV-sections|improper-by-parsed-type')
     # ITP interaction lines: an atom column given by its number is read strictly (a line with too few columns is an error, not a shorter interaction)
     itpm = idx.mod(ITP)
     sp = itpm.func('ITPDirector._split_atoms_and_parameters')
